@@ -189,6 +189,10 @@ def run(ctx):
     if ctx.tier == "thorough":
         from .. import witness
         witness.check(ctx, "C19.witness", {"C19PrivOwnedStr": "PrivOwnedStr is constructible from another crate: _Custom(known string) can be built, which compares unequal to the known variant"})
+    # JSON deserialization agrees with string conversion only if no Deserialize impl (derived, generated or hand-written, e.g. JoinRule's tag extraction)
+    # asks the deserializer for a borrowed &str: such an impl refuses every spelling that contains a JSON escape
+    from . import C18 as _C18
+    _C18.no_borrowed_str_rule(ctx, w, "C19.no-borrowed-str", floor=1500 if thorough else 1200)
     ctx.assumptions += ["hand-written string enums (UriAction, VoipVersionId, TagName, JoinRule, ...) are not covered by the template rule",
                         "_Custom cannot be constructed with a known spelling from outside the crate (PrivOwnedStr is private: compile_fail witness in /verif/witnesses)"]
     ctx.samples += [{"enum": "MembershipState", "F": {"join": "Join"}, "G": {"Join": "join"}},
